@@ -43,6 +43,10 @@ ID = 'C12'
 LEAN_MODULES = ['Yaql.Props.C12', 'Yaql.Props.C12Naming', 'Yaql.Props.C12Gen', 'Yaql.Props.C12Args']
 REQUIRED_THEOREMS = ['Yaql.Props.C12.call_equiv', 'Yaql.Props.C12.ext_both_ways', 'Yaql.Props.C12.kind_exclusive',
                      'Yaql.Props.C12.spelling_kw_move', 'Yaql.Props.C12.spelling_default_move',
+                     'Yaql.Props.C12.spelling_equiv', 'Yaql.Props.C12.getDelegate_eq_of_received',
+                     'Yaql.Props.C12.getDelegate_clash', 'Yaql.Props.C12.spelling_equiv_unguarded_false',
+                     'Yaql.Props.C12.mapArgs_of_getDelegate', 'Yaql.Props.C12.spelling_mapArgs_agree',
+                     'Yaql.Props.C12.mapArgs_not_spelling_invariant', 'Yaql.Props.C12Gen.registry_star_no_default',
                      'Yaql.Props.C12.movesOk_spec', 'Yaql.Props.C12Gen.registry_wf',
                      'Yaql.Props.C12Gen.registry_moves_ok', 'Yaql.Props.C12Gen.alias_convention',
                      'Yaql.Props.C12Args.arglist_grammar', 'Yaql.Props.C12Args.arglist_only_shaped',
@@ -55,8 +59,15 @@ REQUIRED_THEOREMS = ['Yaql.Props.C12.call_equiv', 'Yaql.Props.C12.ext_both_ways'
 TRUSTED = ['harness/gens/registry.py (the dump of the live registry; the reading of decorators from the source text with ast)',
            'the typed value corpus and the canonicalisation of results (harness/values.py)',
            'harness/c12_worker.py (contexts created in the stated order before anything else in that interpreter)']
-ASSUMPTIONS = ['spelling_equiv is proved one parameter at a time (positional <-> keyword, default omitted <-> explicit); the '
-               'whole-vector statement spelling_equiv_full is kept as a def',
+ASSUMPTIONS = ['spelling_equiv : spelling_equiv_full (whole argument vector, get_delegate level) holds for spellings that agree on the '
+               'value every named parameter ends up with, on the arguments beyond the named slots (*), on the keywords no '
+               'parameter takes (**, same order), and on whether some argument is passed twice (then both are rejected); '
+               'the first, unguarded wording is refuted (spelling_equiv_unguarded_false)',
+               'map_args alone is not spelling-invariant (mapArgs_not_spelling_invariant; the real map_args agrees with the '
+               'model): it does not check keywords taken by named parameters, and never enters an empty slot whose parameter '
+               'comes by keyword. Proved instead: a vector that get_delegate binds passes map_args in every spelling without '
+               'such a slot (mapArgs_of_getDelegate, spelling_mapArgs_agree; no * parameter of the registry has a default: '
+               'registry_star_no_default)',
                'smart types outside the closed description (AnyOf, Chain, NotOfType, DateTime..) are encoded for the model as '
                'PythonType(object) with one synthetic validator = their real check()',
                'parser-level spellings (arglist grammar) belong to the parser group',
@@ -287,6 +298,31 @@ def spellings(fd, vis, kwonly, choice, conv='camel'):
                 continue            # the receiver cannot be passed by keyword
             conv.append((tag, 0, args[1:], kw))
         return conv
+    return out
+
+
+def corner_calls(fd, vis, calls, salt):
+    """tie-only spellings on the edge of the guards of C12.spelling_equiv / mapArgs_of_getDelegate (model vs real
+    map_args / get_delegate; never part of the oracle): an argument passed twice (slot and keyword), an empty slot
+    whose parameter comes by keyword, a keyword that no parameter takes"""
+    if fd.no_kwargs:
+        return []
+    base = next((c for c in calls if c[0] == 'positional' and c[1] is utils.NO_VALUE), None)
+    if base is None:
+        return []
+    _, recv, objs, kwo = base
+    filled = [i for i, o in enumerate(objs) if o is not utils.NO_VALUE and i < len(vis)]
+    if not filled:
+        return []
+    out = []
+    i = filled[salt % len(filled)]
+    name = vis[i].alias or vis[i].name
+    if name not in dict(kwo):
+        out.append(('corner:twice@%d' % i, recv, list(objs), kwo + [(name, objs[i])]))
+        emptied = list(objs)
+        emptied[i] = utils.NO_VALUE
+        out.append(('corner:empty+kw@%d' % i, recv, emptied, kwo + [(name, objs[i])]))
+    out.append(('corner:junk', recv, list(objs), kwo + [('_zz', objs[filled[0]])]))
     return out
 
 
@@ -635,6 +671,7 @@ def sweep_context(conv, root, rng, per_fd, sink, replay=None, model_reqs=None, w
                         recv = choice[vis[0].name][1]()
                         objs = [recv] + objs
                     calls.append((tag, recv, objs, kwo))
+                calls += corner_calls(fd, vis, calls, di + len(calls))
                 model_reqs.append((di, name, fd, case, calls, ctx))
 
 
@@ -908,6 +945,9 @@ def run(env, res):
                 for (tag, recv, objs, kwo), m, (allobjs, tags, probes) in zip(calls, mres, cm):
                     rmap, rbound = real_bind(fd, objs, kwo, ctx, recv)
                     nb += 1
+                    if tag.startswith('corner:'):
+                        bump('%s map_args=%s get_delegate=%s' % (tag.split('@')[0], 'none' if rmap is None else 'ok',
+                                                                 'raises' if rbound is None else 'binds'))
                     mmap = None if m['map'] is None else dict(pos=m['map']['pos'], kwd=sorted(m['map']['kwd']))
                     if mmap != rmap:
                         sink.fail('mismatch', 'map_args:' + name, '%s %s spelling %s: real map_args %r, model %r' % (
@@ -944,8 +984,13 @@ def run(env, res):
 
 
 
-LEVEL_TEXT = ('Lean 4: call_equiv, ext_both_ways, kind_exclusive, spelling_kw_move / spelling_default_move over the model of '
-              'translate_args / get_delegate for every well-formed definition (WFDef); call_junk_invariant (= call_junk_invariant_full) / '
+LEVEL_TEXT = ('Lean 4: call_equiv, ext_both_ways, kind_exclusive, spelling_equiv (= spelling_equiv_full, the whole argument vector: '
+              'any two spellings that give every named parameter the same value - in its slot, by keyword in any order, or '
+              'defaulted: left out / empty slot / written out - bind the same vector in get_delegate or fail alike; via '
+              'getDelegate_eq_of_received), spelling_kw_move / spelling_default_move (the one-parameter moves), '
+              'mapArgs_of_getDelegate / spelling_mapArgs_agree (a vector that get_delegate binds passes map_args in every '
+              'such spelling) over the model of translate_args / map_args / get_delegate for every well-formed definition '
+              '(WFDef); call_junk_invariant (= call_junk_invariant_full) / '
               'call_resolver_input over the model of call()\'s keyword filter; toCamel_fixed / toCamel_idempotent / '
               'camel_of_python over the model of the naming conventions; generated-table theorems registry_wf, '
               'alias_convention, alias_convention_each, keyword_names_are_keywords, registered_names_converted (decide +kernel '
@@ -955,7 +1000,9 @@ LEVEL_TEXT = ('Lean 4: call_equiv, ext_both_ways, kind_exclusive, spelling_kw_mo
               'creation order, call() with extra non-keyword keys, map_args/get_delegate of the real definition against the '
               'model per spelling, and the naming / filtering functions against the model.')
 LEVEL_NOTE = ('trusted: Lean kernel; Model/Types, Resolve, RegistryRow, Naming; the registry dump; the corpus. spelling_equiv is '
-              'proved per parameter move; the whole-vector statement (spelling_equiv_full) is not derived. '
+              'proved for the whole vector (spelling_equiv_full, with the guards named in ASSUMPTIONS); map_args by itself is '
+              'shown not to be spelling-invariant (constants passed by keyword are not checked there; an empty slot whose '
+              'parameter comes by keyword is rejected), as in the real code. '
               'call_junk_invariant_full (keys that are no keywords, strings or not, never change call()) is proved for the '
               'code since d6863d4.')
 TECHNIQUE = 'Lean 4 proof + generated registry tables (decide +kernel) + differential testing over the full registry'
